@@ -73,8 +73,12 @@ func (ur *usageTracker) NewReport(serviceName, version, hostname string, now tim
 	if err != nil {
 		return nil, err
 	}
-	// clear the current data points and keep the last data points until we know the report was sent
-	ur.lastDataPoints = ur.currentDataPoints
+	// clear the current data points and keep everything this report carries until we
+	// know the report was sent: data points of an earlier report whose send failed
+	// stay pending together with the current ones, so a second failure does not lose them
+	for signal, usage := range ur.currentDataPoints {
+		ur.lastDataPoints[signal] += usage
+	}
 	ur.currentDataPoints = make(map[usageSignal]float64)
 	return data, nil
 }
